@@ -94,7 +94,7 @@ fn violations_of(case: &Case, res: &ExecResult) -> Vec<Value> {
         let twins = case.ops.iter().any(|o| {
             matches!(
                 o,
-                Op::CallTwinA(_) | Op::CallTwinB(_) | Op::CallTwinC(_) | Op::CallTwinD(_)
+                Op::CallTwinA(_) | Op::CallTwinB(_) | Op::CallTwinC(_) | Op::CallTwinD(_) | Op::CallTwinX(_, _)
             )
         });
         let property = if twins {
